@@ -916,7 +916,7 @@ def _configs(tier: str):
         core = rest = dict(nmax=4, smin=-1, smax=2, maxops=2, first="all")
         deep = dict(nmax=3, smin=-1, smax=2, maxops=3, first="all")  # histories of length 3
         deep_nt = dict(nmax=3, smin=-1, smax=2, maxops=3, first="nonterminal")
-    late1 = dict(nmax=3 if q else 4, smin=-1, smax=1 if q else 2, maxops=2, first="nonterminal")
+    late1 = dict(nmax=3, smin=-1, smax=1 if q else 2, maxops=2, first="nonterminal")
     late3 = dict(nmax=3, smin=-1, smax=1, maxops=3, first="nonterminal")
     mem, cur = [], []
 
@@ -954,7 +954,8 @@ def _configs(tier: str):
         if lt["maxops"] == 3:
             M("iter", "uniq1", cls=lt)
             M("iter", "scalars_then_uniq", cls=lt)
-            C("buffered", "uniq_cols0", cls=lt)
+            if lt["npre"] == 1:
+                C("buffered", "uniq_cols0", cls=lt)
             continue
         for flt in ("uniq1", "scalars0", "columns10", "scalars_then_uniq", "mappings_then_uniq"):
             M("iter", flt, cls=lt)
@@ -973,7 +974,7 @@ def _configs(tier: str):
             C("buffered", "yield_per", 2, cls=lt)
             C("default", "uniq_cols0", cls=lt)
             C("buffered_dflt", "scalars_then_uniq", cls=lt)
-            C("fully", "mappings_then_uniq", cls=lt)
+            C("fully", "scalars_then_uniq", cls=lt)
     if not q:
         M("iter", "uniq1")  # length <= 2 with every first call (the length-3 run starts with a non-closing call)
         C("buffered", "plain")
@@ -1031,8 +1032,8 @@ def harnesses(tier: str) -> List[Harness]:
     else:
         b["all configurations"] = _describe(rest)
         b["additionally iter/plain (any first call) and iter/uniq1, cursor buffered/plain (first call leaves the result open)"] = _describe(deep)
-        b["late-filter configurations"] = "1 call + filter + 1 call (rows 0..4, sizes None,0..2); 1+2 and 2+1 calls (rows 0..3, " \
-            "sizes None,0..1) for iter/uniq1, iter/scalars_then_uniq, cursor buffered/uniq_cols0"
+        b["late-filter configurations"] = "1 call + filter + 1 call (rows 0..3, sizes None,0..2); 1+2 and 2+1 calls (sizes " \
+            "None,0..1) for iter/uniq1, iter/scalars_then_uniq; 1+2 calls for cursor buffered/uniq_cols0"
     META["bounds"][tier] = b
     return [
         # (budgets are CPU seconds per slice and only a cap)
